@@ -170,3 +170,18 @@ Proof.
   all: lock_fin; try lia.
   all: destruct (membership_changed P (entries_of s) c); cbn in *; lia.
 Qed.
+
+(* ------------------------------------------------------------------ all schedules *)
+
+Lemma base_reach_locks P s : reach P s -> InvC10 s /\ L_mu P s /\ I_oops s /\ I_cfg s /\ L_run s.
+Proof.
+  revert s. apply reach_inv.
+  - split; [apply InvC10_init|]. split; [unfold L_mu; cbn; split; [now rewrite andb_false_r|discriminate]|].
+    split; [reflexivity|]. split; [|reflexivity].
+    intros _. unfold all_outside. cbn. split_all; auto; try discriminate; try (intros r []).
+  - intros s l s' (Hc & Hmu & Ho & Hcfg & Hrun) Hst.
+    assert (H1 : I1 s) by (destruct Hc as (_ & H1 & _); exact H1).
+    split; [eapply InvC10_step; eassumption|]. split; [eapply L_mu_step; eassumption|].
+    split; [eapply I_oops_step; eassumption|]. split; [eapply I_cfg_step; eassumption|].
+    eapply L_run_step; eassumption.
+Qed.
